@@ -18,7 +18,7 @@ from ..astutil import dotted, norm
 from ..core import Ctx, PropSpec, Unsupported
 from ..extract import fn_stmts, resolve_local, stmt_site, where
 from ..interp import BytesObj, Obj, Raised
-from ..models import make_interp, raw_packet
+from ..models import make_interp, model_definition, raw_packet
 
 DEF = "xtce/definitions.py"
 F, C, L, U = 1, 0, 2, 3
@@ -181,7 +181,7 @@ def run_history(prog, fi, history, shb: int, combine: bool = True):
         def __init__(self):
             self.i = 0
 
-    selfv = Obj("XtcePacketDefinition", root_container_name="ROOT")
+    selfv = model_definition(it, "ROOT")
     # boundaries: wrap each packet in an Obj marker? simpler: run prefixes of increasing length and diff.
     prev_parsed: List[bytes] = []
     prev_warn = 0
